@@ -40,21 +40,34 @@ Node(mt, inl, kids) == [e |-> "minify", mt |-> mt, inl |-> inl, kids |-> kids]
 Cat == [
   css     |-> Leaf("css", FALSE),
   cssi    |-> Leaf("css", TRUE),                                     \* text/css; inline=1
+  cssD    |-> Node("css", FALSE, << Leaf("svg", FALSE) >>),          \* url(data:image/svg+xml,...) -> DataURI -> m.Bytes
   js      |-> Leaf("js", FALSE),
+  jsi     |-> Leaf("js", TRUE),
   json    |-> Leaf("json", FALSE),
   xml     |-> Leaf("xml", FALSE),
+  upper   |-> Leaf("upper", FALSE),                                  \* user function registered with AddFuncRegexp
   svg0    |-> Leaf("svg", FALSE),
   svg1    |-> Node("svg", FALSE, << Leaf("css", FALSE) >>),          \* standalone svg with <style>
+  svg2    |-> Node("svg", FALSE, << Leaf("css", FALSE), Leaf("css", TRUE) >>),   \* ... and a style attribute
   html0   |-> Leaf("html", FALSE),
-  htmlC   |-> Node("html", FALSE, << Leaf("css", FALSE), Leaf("css", TRUE), Leaf("js", TRUE) >>),
+  htmlC   |-> Node("html", FALSE, << Leaf("css", FALSE), Leaf("css", TRUE), Leaf("js", FALSE), Leaf("js", TRUE) >>),
+  htmlD   |-> Node("html", FALSE, << Leaf("css", FALSE), Leaf("js", FALSE), Leaf("json", FALSE),
+                                     Node("css", TRUE, << Leaf("svg", FALSE) >>), Leaf("js", TRUE) >>),
   htmlS   |-> Node("html", FALSE, << Node("svg", TRUE, << Leaf("css", FALSE) >>) >>),  \* inline svg with <style>
+  htmlM   |-> Node("html", FALSE, << Node("svg", TRUE, << Leaf("css", FALSE) >>), Leaf("xml", FALSE) >>),   \* ... and <math>
+  htmlS3  |-> Node("html", FALSE, << Node("svg", TRUE, << Leaf("css", FALSE) >>), Leaf("svg", TRUE),
+                                     Node("svg", FALSE, << Leaf("css", FALSE) >>) >>), \* two inline svgs and an svg data URI
   htmlG   |-> Node("html", FALSE, << Leaf("gate", FALSE) >>),        \* parks two read-holds deep
   htmlGre |-> Node("html", FALSE, << Leaf("gatere", FALSE) >>),
+  cssG    |-> Node("css", FALSE, << Leaf("gate", FALSE) >>),         \* css url(data:<gate type>,...): parks INSIDE the css minifier
+  svgG    |-> Node("svg", FALSE, << Node("css", FALSE, << Leaf("gate", FALSE) >>) >>),   \* three read-holds deep
+  htmlCG  |-> Node("html", FALSE, << Node("css", TRUE, << Leaf("gatere", FALSE) >>) >>), \* style attribute -> css -> gate
   gate    |-> Leaf("gate", FALSE),                                   \* user minifier that parks (literal)
   gatere  |-> Leaf("gatere", FALSE),                                 \* the same, served by a pattern
-  cmd     |-> Leaf("cmd", FALSE),                                    \* AddCmd, stdin/stdout
+  cmd     |-> Leaf("cmd", FALSE),                                    \* AddCmd / AddCmdRegexp, stdin/stdout
   cmdin   |-> Leaf("cmdin", FALSE),                                  \* AddCmd with $in placeholder
   none    |-> Leaf("none", FALSE),                                   \* no minifier registered
+  \* Match only looks up (the driver then runs the returned function, which is a call without the outer read hold)
   matchL  |-> [e |-> "match", mt |-> "html", inl |-> FALSE, kids |-> <<>>],
   matchP  |-> [e |-> "match", mt |-> "xml", inl |-> FALSE, kids |-> <<>>],
   add     |-> [e |-> "add", mt |-> "css", inl |-> FALSE, kids |-> <<>>]
@@ -62,16 +75,17 @@ Cat == [
 AllShapes == DOMAIN Cat
 
 Literal == {"html", "css", "svg", "gate", "cmd", "cmdin"}            \* m.literal
-Pattern == {"js", "json", "xml", "gatere"}                          \* m.pattern
+Pattern == {"js", "json", "xml", "gatere", "upper"}                 \* m.pattern
 Registered(mt) == mt \in Literal \cup Pattern
 IsGate(mt) == mt \in {"gate", "gatere"}
 HasInline(mt) == mt \in {"css", "svg"}                               \* option struct with an Inline field
 AppendsPkg(mt) == mt \in {"css", "html"}                             \* append(urlBytes/dataBytes, ...)
 
 DomainShapes == AllShapes \ {"add", "cmdin"}                         \* the property's domain on the unchanged tree
-SmallShapes == {"cssi", "svg1", "htmlS", "htmlG", "gatere", "matchP", "cmd"}
+CoreShapes == DomainShapes \ {"cssD", "jsi", "upper", "svg2", "htmlD", "htmlM", "htmlS3", "svgG", "htmlCG"}
+SmallShapes == {"cssi", "svg1", "htmlS", "cssG", "gatere", "matchP"}
 PairShapes == {"cssi", "svg0", "htmlS", "gate"}
-QuickShapes == {"css", "cssi", "svg0", "svg1", "htmlS", "htmlG", "gatere", "matchP", "cmd", "none"}
+QuickShapes == {"css", "cssi", "svg0", "svg1", "htmlS", "htmlG", "svgG", "gatere", "matchP", "cmd", "none"}
 
 Tmpl == << 0, 0 >>                  \* cmd.Args still holds the registered template / slice base untouched
 Res(mt, v, inl, pk, ar, kids) == [mt |-> mt, v |-> v, inl |-> inl, pk |-> pk, ar |-> ar, kids |-> kids]
